@@ -27,23 +27,26 @@ def H(cmd, oracle, quick, thorough, **kw):
 
 MONAD_H = [H('monad_' + p, 'oracle_monad', 3000, 150000, oracle_args=[p], spec_level=True) for p in ('try', 'option', 'either', 'statet')]
 TRYOPT_H = H('tryopt', 'oracle_tryopt', 4000, 200000, spec_level=True)
+# the ApplicativeN / ChainN builders of option and try (and every other arity family) live in the C14 machinery
+ARITY_H = H('arity', 'oracle_arity', 8000, 400000, spec_level=True, nontrivial=lambda op, impl: op.count(' ') >= 3)
 
 CHECKS = {
     'C01': dict(
         spec=['FpVerif.Spec.C01', 'FpVerif.Spec.C01Inst'],
-        harnesses=MONAD_H + [TRYOPT_H],
+        harnesses=MONAD_H + [TRYOPT_H, ARITY_H],
         level='proof',
         modelled='X_monad.go + X_traverse.go of option/try/either/statet (one generic model of the generator template, '
                  'instantiated four times; every arity through operand lists); FlatMap/Pure/FoldM and the hand-written cores of '
                  'try_op.go, option_op.go, either_op.go; methods of fp.Try/fp.Option/fp.Either. Iterator/List monads: C12; lazy.Eval: C16. '
-                 'Not modelled: MonadChainN/ApplicativeFunctorN builders, SeqT/OptionT transformer functions, fn0/fn1.',
+                 'MonadChainN/ApplicativeFunctorN builders: model and theorems in Spec/C14 (chain_def, applicative_def), exercised here through the arity harness. '
+                 'Not modelled: SeqT/OptionT transformer functions, fn0/fn1.',
         assumptions=['Go evaluates call arguments before the call and left to right; every M-typed argument of the generated family is a '
                      'variable or a nested call used exactly once (checked by the correspondence, not proved)',
                      'iterators handed to FoldM/Traverse are viewed as the finite list they yield (pull behaviour: C12/C20)'],
     ),
     'C02': dict(
         spec=['FpVerif.Spec.C02'],
-        harnesses=MONAD_H + [TRYOPT_H, H('statet', 'oracle_statet', 3000, 100000, spec_level=True)],
+        harnesses=MONAD_H + [TRYOPT_H, ARITY_H, H('statet', 'oracle_statet', 3000, 100000, spec_level=True)],
         level='proof',
         modelled='as C01; in addition try.Of/Call/CallUnit (recover -> tryCatch), Recover*/Or*/OrElse* of fp.Try/fp.Option/fp.StateT. '
                  'future.Apply/Apply2: C06.',
@@ -81,6 +84,56 @@ CHECKS = {
                  'Traverse/TraverseSeq via iterator.FoldFuture). Not modelled: Await/timeouts, MonadChainN/ApplicativeFunctorN builders, inline executors.',
         assumptions=['a task body runs atomically (task-atomic model); promises are atomic single-assignment cells (justified by C05)',
                      'user callbacks do not panic inside tasks (a panic in a callback goroutine terminates the program; only Apply/Apply2 recover)'],
+    ),
+    'C12': dict(
+        spec=['FpVerif.Spec.C12', 'FpVerif.Spec.C12List'],
+        harnesses=[H('iter', 'oracle_iter', 8000, 800000,
+                     extra={'quick': ['-prop', 'C12'], 'thorough': ['-prop', 'C12']})],
+        level='proof',
+        modelled='iterator.go (all methods), iterator/iterator_op.go (sources, Map, FilterMap, FlatMap, Zip*, Scan, '
+                 'Duplicate/Span/Partition, all folds, Reduce, Min/Max, GroupBy, Sort, ToSeq), seq.go IteratorOfSeq/Option, '
+                 'MakePullIterator; list.go + list/list_op.go (memo cells in a heap: Map, FlatMap, FilterMap, Combine, Zip, '
+                 'ZipWithIndex, Scan, GenerateFrom/Range, ReverseSeq, Collect/ToList, Fold*, Reduce, iterator.FromList)',
+        assumptions=['user callbacks are arbitrary logging, non-panicking Go functions in the theorems (panicking ones are '
+                     'still modelled and compared by the oracle)',
+                     'lazy.Eval is modelled call-by-name (trampolining/stack depth not modelled); a FoldRight step forces '
+                     'its lazy argument at most once',
+                     'the mutex of Duplicate is not modelled: calls are atomic (single goroutine)',
+                     'Go loops without static bound run with fuel; theorems hold for every fuel > input length',
+                     'heap semantics of list.Map/FlatMap/Combine/Zip/Scan/Collect vs. their denotation: validated by the '
+                     'oracle cross-check on every run (proved for Nil/Cons/Seq and GenerateFrom/Range)'],
+    ),
+    'C20': dict(
+        spec=['FpVerif.Spec.C20'],
+        harnesses=[H('iter', 'oracle_iter', 8000, 800000,
+                     extra={'quick': ['-prop', 'C20'], 'thorough': ['-prop', 'C20']})],
+        level='proof',
+        modelled='fp.Iterator protocol for every source/combinator of iterator.go + iterator/iterator_op.go (same models as '
+                 'C12), zero-value Iterator, Duplicate/Span/Partition as two-sided machines over one shared state; '
+                 'Map/Set iterators of fp, immutable, mutable are covered by the direct protocol laws only',
+        assumptions=['calls on the two sides of Duplicate are atomic steps (the sync.Mutex serialises them)',
+                     'user callbacks do not panic in the theorems'],
+    ),
+    'C14': dict(
+        spec=['FpVerif.Spec.C14'],
+        harnesses=[H('arity', 'oracle_arity', 16000, 1600000, spec_level=True,
+                     nontrivial=lambda op, impl: op.count(' ') >= 3)],
+        level='proof',
+        modelled='every arity-indexed generated family outside the monad family (C01) and the eq/ord/hash/monoid/clone/future '
+                 'families: TupleN/LabelledN accessors + String, fp FuncN.ApplyFirstN/ApplyLastN/Widen, ComposeN, IdN, Flip, Flip2; '
+                 'as.FuncN/SupplierN/CurriedN/UnTupledN/Tupled2/TupleN/LabelledN/HListN/HListNLabelled; curried.FuncN/RevertN/FlipN/'
+                 'FlipApplyN/SlipLN/ComposeN; hlist.OfN/CaseN/LiftN/RiftN/ReverseN; product.TupleN/TupleFromHListN/LabelledFromHListN/'
+                 'FlattenN/LiftN; fn1.MergeN; unit.FuncN; lazy.TailCallN; try.FuncN/PureN/UnitN/PtrN + Curried forms; option|try '
+                 'ApplicativeFunctorN and MonadChainN builders (every method at every receiver arity); iterator.FlapN/MethodN '
+                 '(correspondence only) - each modelled ONCE, arity-generically, following the recursion of its template; theorems by '
+                 'induction for all N; the harness has one generated call site per member x arity that exists in the source '
+                 '(regex scan + internal/max/max.go, coverage discrepancies are direct failures).',
+        assumptions=['all type parameters are instantiated at `any` (and a Named int for LabelledN): Go\'s type checker already '
+                     'guarantees that a value of type Ai only flows where an Ai is expected',
+                     'callbacks are arbitrary GoM computations (may log and panic); lazy.Eval thunks may log but do not panic',
+                     'operands handed to the try builders as values are not the zero-value Try{} (stated as the excluded branch)',
+                     'iterator.FlapN/MethodN: the iterator is viewed as the finite list it yields and the function iterator has at '
+                     'most one element (single use / pull order of iterators: C12, C20)'],
     ),
     'C16': dict(
         spec=['FpVerif.Spec.C16', 'FpVerif.Spec.C16Facts'],
